@@ -112,7 +112,11 @@ def runStream (prop tiS toS procS readerS writerS extS implS : String) : Result 
     let cfg : Cfg := ⟨env, ti, to, proc, 65536, 10485760⟩
     match Stream.stream cfg revs wevs, parseObs implS with
     | _, none => ⟨"B", s!"cannot parse impl obs: {implS}"⟩
-    | .err .ext, _ => ⟨"X", "model abstains"⟩
+    | .err .ext, some (ret, calls, writes) =>
+      -- the model cannot compute this stream; C08's oracle needs the implementation's observation only
+      (match (if prop == "C08" then c08Violation revs wevs proc cfg.maxSize ret calls writes else none) with
+       | some c => ⟨"P", s!"stream ti=[{tiS}] to=[{toS}] proc={procS} r=[{readerS}] w=[{writerS}] impl [{implS}] model [abstains] violates {prop}: key={c}"⟩
+       | none => ⟨"X", "model abstains"⟩)
     | .err e, _ => ⟨"D", s!"model error {e.name}"⟩
     | .panic s, _ => ⟨"D", s!"model panic {s}"⟩
     | .ok mobs, some (ret, calls, writes) =>
